@@ -41,9 +41,10 @@ by new; model bytes = real bytes (`save_incr`), model load = real load. Non-triv
         let Some(mut r) = c.case("refhist", i) else { continue };
         let k = 1 + r.usize(kmax);
         let (revs, latest) = gen_history(&mut r, k);
-        let mut style = gen_style(&mut r);
-        // an object that lives in object streams of two revisions is the registered finding F-C07-a: witness stream only
-        if style.objstm && k > 0 { style.objstm = false; style.xref = if r.chance(1, 2) { XrefStyle::Stream } else { XrefStyle::Table }; }
+        let style = gen_style(&mut r);
+        // object streams in EVERY revision: an updated object is then a member of containers of several
+        // revisions and the cross-reference table must pick the newest (finding F-C07-a, fixed by 943080b)
+        if style.objstm { c.count("refhist.objstm_in_all_revisions"); }
         let version = "1.6";
         let helper_from = latest.keys().map(|k| k.0).max().unwrap() + 1;
         let w = write_file(&mut r, &mut counters, &style, version, &revs);
@@ -73,14 +74,16 @@ by new; model bytes = real bytes (`save_incr`), model load = real load. Non-triv
         let mut extra = Dictionary::new(); extra.set("Root", Object::Reference((1, 0)));
         let revs = vec![Revision { objects: base.clone(), trailer_extra: extra.clone() }, Revision { objects: upd.clone(), trailer_extra: extra.clone() }];
         let style = Style { xref: XrefStyle::Stream, objstm: true, compress: false, indirect_length: false, raw_cr_in_strings: false, junk_before_header: false, lexical_freedom: false };
-        // (no `load` correspondence here: with a number in two containers the rayon build is schedule-dependent, see C08)
         // force both into object streams: retry seeds until both revisions put object 2 into a container
         let mut reproduced = false; let mut found = false;
         for _ in 0..40 {
             let w = write_file(&mut r, &mut counters, &style, "1.6", &revs);
             if w.containers.len() >= 2 {
                 if let Ok(d) = Document::load_mem(&w.bytes) {
-                    if let Some(Object::String(s, _)) = d.objects.get(&(2, 0)) { found = true; if s == b"old" { reproduced = true; break; } }
+                    if let Some(Object::String(s, _)) = d.objects.get(&(2, 0)) {
+                        if !found { c.corr(format!("load {}", hex_tok(&w.bytes)), load_reply(&w.bytes)); }
+                        found = true; if s == b"old" { reproduced = true; break; }
+                    }
                 }
             }
         }
